@@ -4,6 +4,7 @@ import (
 	"fmt"
 	"go/ast"
 	"go/token"
+	"sort"
 	"strings"
 )
 
@@ -160,9 +161,15 @@ func genC15() {
 		}
 		return ls[0][len(ls[0])-1]
 	}
+	// sorted: reordering independent statements of the source does not change the lists
+	sorted := func(l []string) []string {
+		o := append([]string{}, l...)
+		sort.Strings(o)
+		return o
+	}
 	defSites := func(name string, n ast.Node, what string) {
-		g.def(name+"_sites", "list string", coqStrList(sites(n)), "slice / constant-index expressions of "+what+" (names erased)")
-		g.def(name+"_len_guards", "list string", coqStrList(lenGuards(n)), "comparisons of a len(..) with a constant in "+what)
+		g.def(name+"_sites", "list string", coqStrList(sorted(sites(n))), "slice / constant-index expressions of "+what+" (names erased, sorted)")
+		g.def(name+"_len_guards", "list string", coqStrList(sorted(lenGuards(n))), "comparisons of a len(..) with a constant in "+what+" (sorted)")
 	}
 
 	// ---- readReleaseData ------------------------------------------------------
@@ -212,7 +219,7 @@ func genC15() {
 				fail("%s: checksumFromHeader: expected one strings.HasPrefix and one strings.TrimPrefix with a literal", rel)
 				continue
 			}
-			rows = append(rows, fmt.Sprintf("(%s, (%s, %s, %s))", coqStr(rel), coqStr(hp[0][0]), coqStr(tp[0][0]), coqStrList(sites(fd.Body))))
+			rows = append(rows, fmt.Sprintf("(%s, (%s, %s, %s))", coqStr(rel), coqStr(hp[0][0]), coqStr(tp[0][0]), coqStrList(sorted(sites(fd.Body)))))
 		}
 		g.def("checksum_header_copies", "list (string * (string * string * list string))", "["+strings.Join(rows, ";\n  ")+"]",
 			"checksumFromHeader: file, HasPrefix literal, TrimPrefix literal, slice / constant-index expressions")
